@@ -79,3 +79,31 @@ VM_INTERP = {"main": "src/vm_interpreted.cpp", "keep": ["InterpretedVm::datasetR
 AES_DISPATCH = {"main": "src/aes_hash.cpp", "keep": ["aesenc", "aesdec", "rx_*"],
                 "pre_rewrites": [{"name": "hardware AES arm -> contract stand-in", "pattern": r"rx_aes(enc|dec)_vec_i128\(", "repl": r"rxv_hard_aes\1("}],
                 "must_fire": {"recipe rewrite: hardware AES arm -> contract stand-in": 2}}
+
+JIT_EMIT = dict(X86, main="src/jit_compiler_x86.cpp",
+    keep=["JitCompilerX86::h_*", "JitCompilerX86::genAddress*", "JitCompilerX86::genSIB", "JitCompilerX86::emit*", "Instruction::get*", "isZeroOrPowerOf2"],
+    drop_vars=["JitCompilerX86::engine", JIT_DROP_SIZES],
+    pre_rewrites=[{"name": "emit(array) -> emit(array, sizeof array)", "pattern": r"\bemit\((\w+)\);", "repl": r"emit(\1, sizeof(\1));"},
+                  {"name": "instructionOffsets[] -> bounds-checked vector read", "pattern": r"instructionOffsets\[(\w+)\]", "repl": r"rxv_vec_at_i32(instructionOffsets, \1)"}],
+    must_fire={"recipe rewrite: emit(array) -> emit(array, sizeof array)": 60, "recipe rewrite: instructionOffsets[] -> bounds-checked vector read": 1})
+
+PORTABLE = {"main": "src/instructions_portable.cpp",
+            "keep": ["mulh", "smulh", "rotr", "rotl", "setRoundMode_", "rx_*", "unsigned*ToSigned2sCompl", "signExtend2sCompl", "loadDoublePortable"]}
+PORTABLE_MULH = dict(PORTABLE, pre_rewrites=[
+    {"name": "partial product al*bl -> abstract x00", "function": "mulh", "pattern": r"al \* bl", "repl": "rxv_x00"},
+    {"name": "partial product al*bh -> abstract x01", "function": "mulh", "pattern": r"al \* bh", "repl": "rxv_x01"},
+    {"name": "partial product ah*bl -> abstract x10", "function": "mulh", "pattern": r"ah \* bl", "repl": "rxv_x10"},
+    {"name": "partial product ah*bh -> abstract x11", "function": "mulh", "pattern": r"ah \* bh", "repl": "rxv_x11"}],
+    must_fire={"recipe rewrite: partial product al*bl -> abstract x00": 1, "recipe rewrite: partial product al*bh -> abstract x01": 1,
+               "recipe rewrite: partial product ah*bl -> abstract x10": 1, "recipe rewrite: partial product ah*bh -> abstract x11": 1})
+PORTABLE_SMULH = dict(PORTABLE, pre_rewrites=[{"name": "mulh call in smulh -> abstract unsigned high word", "function": "smulh",
+                                               "pattern": r"mulh\(a, b\)", "repl": "rxv_mulh_result"}],
+                      must_fire={"recipe rewrite: mulh call in smulh -> abstract unsigned high word": 1})
+
+# IMUL_RCP emits either nothing or 14 bytes depending on the immediate: a symbolic layout makes the byte decoder explode.
+# The branch condition is wrapped: the harness fixes the case by an assumption on imm32, ASSERTS that the real condition has the
+# expected value, and continues with that constant (sound case split, both cases are obligations).
+JIT_EMIT_RCP = dict(JIT_EMIT, pre_rewrites=JIT_EMIT["pre_rewrites"] + [
+    {"name": "IMUL_RCP branch condition specialised by asserted constant", "function": "JitCompilerX86_h_IMUL_RCP",
+     "pattern": r"if \(!isZeroOrPowerOf2\(divisor\)\)", "repl": "if (RXV_RCP_COND(!isZeroOrPowerOf2(divisor)))"}],
+    must_fire=dict(JIT_EMIT["must_fire"], **{"recipe rewrite: IMUL_RCP branch condition specialised by asserted constant": 1}))
